@@ -501,6 +501,9 @@ def _do(reg, c):
     if op == "set_top":
         reg.get("N", c["n"]).top_instance = reg.get("I", c["i"])
         return []
+    if op == "set_top_m":       # the method form with an instance (used by the EBLIF reader)
+        reg.get("N", c["n"]).set_top_instance(reg.get("I", c["i"]))
+        return []
     if op == "set_top_def":
         n = reg.get("N", c["n"])
         n.top_instance = reg.get("D", c["d"])
@@ -639,6 +642,8 @@ def _q_hq(reg, c):
         kw["selection"] = c["sel"]
     elif c.get("sel") == "DEFAULT":
         kw["recursive"] = bool(c.get("rec", False))
+    if isinstance(obj, list):      # a user's list is asked twice: the recorded answer is the one to the SECOND question
+        list(fn(obj, **kw))
     res = list(fn(obj, **kw))
     reg.last_ret = [_path_of_href(reg, h) for h in res]
     reg.last_info = [_href_info(reg, h, p) for h, p in zip(res, reg.last_ret)]
@@ -1109,6 +1114,25 @@ def mutate_text(fmt, text, kind, idx):
         if idx >= len(pairs):
             return None, n
         toks[pos_ids[pairs[idx][0]]] = toks[pos_ids[pairs[idx][1]]]
+    elif kind == "dangle_name":
+        # a reference that spells the ORIGINAL NAME of a renamed element instead of its identifier: (rename id_zn "zn")
+        # is declared, (portRef zn ...) is written - zn is declared nowhere, the reference dangles
+        if fmt != "edif":
+            return None, n
+        renamed, ids = {}, set()
+        for i, t in enumerate(toks[:-3]):
+            if t == "(" and toks[i + 1].lower() == "rename":
+                renamed[toks[i + 2].lower()] = toks[i + 3].strip('"')
+                ids.add(toks[i + 2].lower())
+        cases = []
+        for i, t in enumerate(toks[:-1]):
+            if t.lower() in _REFKW[fmt] and t.lower() != "member" and toks[i + 1].lower() in renamed:
+                nm = renamed[toks[i + 1].lower()]
+                if re.match(r"^[A-Za-z][A-Za-z0-9_]*$", nm) and nm.lower() not in ids:
+                    cases.append((i + 1, nm))
+        if idx >= len(cases):
+            return None, n
+        toks[cases[idx][0]] = cases[idx][1]
     elif kind == "dangle":
         refs = [i + 1 for i, t in enumerate(toks[:-1]) if t.lower() in _REFKW[fmt] and toks[i + 1] not in ("(", ")")]
         if not refs:
@@ -1140,7 +1164,7 @@ def _x_parse_text(reg, c):
     st = project(reg)
     fmt = c["fmt"]
     rnd = {"edif": edif_text, "verilog": verilog_text, "eblif": eblif_text}[fmt]
-    base = rnd.render(st, c["n"], {})
+    base = rnd.render(st, c["n"], {"rename": True} if c["kind"] == "dangle_name" else {})
     if c["kind"] == "none":
         text, ntok = base, 0
     else:
